@@ -20,7 +20,8 @@ def configs(tier):
     props = {"cal": {"displayname": ["d1", None, ""], "calorder": [None, ""], "calcolor": [""]}, "c2": {"displayname": [None, ""], "comment": [""]}}
     out = [
         Config(front="wsgi", backend="tree", prefix="/", features=feats | {"fsck"}, bodies=bodies, props=props, oracles={"C09"}),
-        Config(front="wsgi", backend="bare", prefix="/", features=feats, bodies=bodies, props=props, oracles={"C09"}),
+        # (member names starting with a dot in this configuration)
+        Config(front="wsgi", backend="bare", prefix="/", features=feats, names={"cal": ["a.ics", ".b.ics"], "ab": ["a.vcf"], "c2": [".a.ics"]}, bodies=bodies, props=props, oracles={"C09"}),
     ]
     # a member that was stored unvalidated (uploaded as octet-stream under a .ics name) and is then overwritten with a calendar
     out.append(Config(front="wsgi", backend="tree", prefix="/", features={"git", "fsck"}, names={"cal": ["a.ics"], "ab": [], "c2": []}, bodies={"cal": ["X", "X2", "TXT"], "ab": [], "c2": []},
